@@ -597,7 +597,29 @@ def check_C13(chk, tier):
     run_phase(chk, "norefine via gssvx/d", H + "h_gssvx.c", xc, ["C13."], prec="d", budget_s=100, validate_samples=0, bounds="IterRefine = NOREFINE through the expert driver")
 
 
-REGISTRY = {"C13": check_C13, "C12": check_C12, "C11": check_C11, "C09": check_C09, "C19": check_C19, "C20": check_C20, "C07": check_C07, "C14": check_C14, "C10": check_C10, "C08": check_C08, "C18": check_C18, "C05": check_C05, "C06": check_C06, "C01": check_C01, "C02": check_C02, "C03": check_C03, "C04": check_C04}
+# ------------------------------------------------------------------------------------------------ C16 readers (coordinate formats by CBMC; HB/RB text layouts: see DESIGN)
+def check_C16(chk, tier):
+    chk.assumptions += ["stdio replaced at token level: fgets/sscanf/fscanf/scanf deliver SYMBOLIC header fields and (i, j, value) triples to the real reader; text-to-number conversion (libc) assumed",
+                        "well-formed file: 1-based indices in range, each position listed once, symmetric files store the lower triangle (diagonal entries present or absent, any order)",
+                        "Harwell-Boeing / Rutherford-Boeing fixed-width text layouts are NOT covered by a solver-based check in this build (character-level file model not finished): C16 is claimed for the coordinate readers (?readMM, ?readtriple) only; see DESIGN 10"]
+    q = tier == "quick"; hs = []
+    NBq, NEq = (3, 2) if q else (3, 3)
+    for prec in (["d", "z"] if q else list("dszc")):
+        P = "-DPREC_" + prec.upper(); mem = [REPO + "/SRC/%smemory.c" % prec, REPO + "/SRC/memory.c"]
+        for n in range(1, NBq + 1):
+            for nnz in range(1, NEq + 1):      # an empty file makes the reader call malloc(0), which CBMC may answer with NULL -> ABORT: not modelled
+                if nnz > n * n: continue
+                for sym in (0, 1):
+                    if sym and nnz > n * (n + 1) // 2: continue
+                    hs.append(e1.Harness("c16_%sreadMM_n%d_e%d_%s" % (prec, n, nnz, "sym" if sym else "gen"), [E1H + "h16mm.c", REPO + "/SRC/%sreadMM.c" % prec] + mem,
+                                         defs=[P, "-DREADER=1", "-DNB=%d" % NBq, "-DNE=%d" % max(NEq, 1), "-DFIX_N=%d" % n, "-DFIX_NNZ=%d" % nnz, "-DFIX_SYM=%d" % sym], unwind=18, timeout=1500, flags=e1.BASE_FLAGS))
+                if prec in "dz" or not q:
+                    hs.append(e1.Harness("c16_%sreadtriple_n%d_e%d" % (prec, n, nnz), [E1H + "h16mm.c", REPO + "/SRC/%sreadtriple.c" % prec] + mem,
+                                         defs=[P, "-DREADER=2", "-DNB=%d" % NBq, "-DNE=%d" % max(NEq, 1), "-DFIX_N=%d" % n, "-DFIX_NNZ=%d" % nnz, "-DFIX_SYM=0"], unwind=18, timeout=1500, flags=e1.BASE_FLAGS))
+    e1.run_harnesses(chk, hs, "C16 coordinate readers", "n <= %d, <= %d file entries in any order with symbolic positions and values, general and symmetric (diagonal present/absent), 1-based; CBMC bounds/pointer checks on every array the reader allocates" % (NBq, NEq))
+
+
+REGISTRY = {"C16": check_C16, "C13": check_C13, "C12": check_C12, "C11": check_C11, "C09": check_C09, "C19": check_C19, "C20": check_C20, "C07": check_C07, "C14": check_C14, "C10": check_C10, "C08": check_C08, "C18": check_C18, "C05": check_C05, "C06": check_C06, "C01": check_C01, "C02": check_C02, "C03": check_C03, "C04": check_C04}
 
 
 def run(pid, tier):
